@@ -112,12 +112,44 @@ fn gen_doc(rng: &mut Rng, d: usize, fmt: Format) -> DocSpec {
     doc
 }
 
+/// a Markdown document for `--cram-compat`: all test cases run in ONE script, so they must share
+/// ONE skip code (document defaults, the same inline value on every test case, or both), there
+/// are no per-test timeouts, and a hard `exit` is only used with the skip code
+fn scriptify(rng: &mut Rng, doc: &mut DocSpec) {
+    let old_codes: Vec<i32> = doc.tests.iter().map(|t| t.skip_code.or(doc.skip_code).unwrap_or(DEFAULT_SKIP_CODE)).collect();
+    let code: i32 = if rng.chance(1, 5) { DEFAULT_SKIP_CODE } else { doc.skip_code.unwrap_or(*rng.pick(&CODES)) };
+    let mode = rng.below(3);
+    // 0: document defaults only, 1: the same inline value everywhere, 2: both
+    doc.skip_code = if code != DEFAULT_SKIP_CODE && mode != 1 { Some(code) } else { None };
+    let inline = if code != DEFAULT_SKIP_CODE && mode != 0 { Some(code) } else { None };
+    for (t, old) in doc.tests.iter_mut().zip(old_codes) {
+        t.skip_code = inline;
+        t.timeout_ms = None;
+        t.sleep_ms = 0;
+        if t.exit == old && old != code {
+            // was meant to skip: exits with the script's code now
+            if t.expect_code == Some(t.exit) {
+                t.expect_code = Some(code);
+            }
+            t.exit = code;
+        }
+        if t.hard_exit && t.exit != code {
+            t.hard_exit = false;
+        }
+    }
+}
+
 fn gen_run(rng: &mut Rng) -> RunSpec {
     let n_docs = 1 + rng.weighted(&[4, 3, 2]);
+    let cram_compat = rng.chance(1, 4);
     let docs: Vec<DocSpec> = (0..n_docs)
         .map(|d| {
             let fmt = if rng.chance(2, 3) { Format::Markdown } else { Format::Cram };
-            gen_doc(rng, d, fmt)
+            let mut doc = gen_doc(rng, d, fmt);
+            if cram_compat && fmt == Format::Markdown {
+                scriptify(rng, &mut doc);
+            }
+            doc
         })
         .collect();
     RunSpec {
@@ -127,6 +159,7 @@ fn gen_run(rng: &mut Rng) -> RunSpec {
         cli_prepend: vec![],
         cli_append: vec![],
         cli_timeout_s: None,
+        cram_compat,
     }
 }
 
@@ -139,7 +172,7 @@ fn skip_findings(run: &RunSpec, docs: &[DocModel], results: &[(String, String, S
         .chain(std::iter::once(DEFAULT_SKIP_CODE))
         .collect();
     for (d, spec) in docs.iter().zip(run.docs.iter()) {
-        let fmt = if d.format == Format::Markdown { "markdown" } else { "cram" };
+        let fmt = fmt_of(d);
         let class_of = |id: &str| -> Option<Class> { results.iter().find(|r| r.0 == d.name && r.1 == id).map(|r| Class::of_kind(&r.2)) };
         match d.end {
             DocEnd::Skipped { by } => {
@@ -181,7 +214,7 @@ fn skip_findings(run: &RunSpec, docs: &[DocModel], results: &[(String, String, S
                     _ => d.seq.len(),
                 };
                 let wrongly: Vec<usize> = (0..stop.min(d.seq.len())).filter(|i| class_of(&d.seq[*i].id) == Some(Class::Skipped)).collect();
-                if wrongly.is_empty() || (d.format == Format::Cram && matches!(d.end, DocEnd::TimedOut { .. })) {
+                if wrongly.is_empty() || (d.script && matches!(d.end, DocEnd::TimedOut { .. })) {
                     continue;
                 }
                 let foreign = spec.tests.iter().any(|t| t.exit != 0 && all_codes.contains(&t.exit));
@@ -207,21 +240,24 @@ impl Monitor for C15 {
     fn plan(&self, tier: Tier) -> Plan {
         let mut p = Plan::new(
             tier.pick(400, 6000),
-            "runs of 1-3 documents (Markdown/Cram); skip code default 80, per document (front-matter defaults) or per test case; skipping test case first/middle/last, by `exit N` or `(exit N)`; neighbours that pass, fail, expect [80] / the skip code, exit with somebody else's code, time out; non-trivial = a document the model says is skipped, or a document where a test case exits with a code that is a skip code elsewhere (80, the document's, a neighbour's) without skipping; distinct = hash of (format, end, position, classes per test case) over the run",
+            "runs of 1-3 documents (Markdown/Cram); skip code default 80, per document (front-matter defaults) or per test case; skipping test case first/middle/last, by `exit N` or `(exit N)`; a quarter of the runs under --cram-compat (Markdown documents executed as one script with one skip code); neighbours that pass, fail, expect [80] / the skip code, exit with somebody else's code, time out; non-trivial = a document the model says is skipped, or a document where a test case exits with a code that is a skip code elsewhere (80, the document's, a neighbour's) without skipping; distinct = hash of (format, end, position, classes per test case) over the run",
         );
         p.chunk = tier.pick(2, 4);
         p.case_timeout_s = 120;
         p.floor_nontrivial = tier.pick(40, 400);
         p.floor_buckets = vec![
-            ("doc:markdown:skipped".into(), tier.pick(50, 600)),
+            ("doc:markdown:skipped".into(), tier.pick(30, 400)),
+            ("doc:markdown-cram-compat:skipped".into(), tier.pick(11, 150)),
+            ("cram-compat:skip-by-custom-code".into(), tier.pick(9, 130)),
             ("doc:cram:skipped".into(), tier.pick(19, 220)),
-            ("doc:markdown:completed".into(), tier.pick(34, 400)),
+            ("doc:markdown:completed".into(), tier.pick(26, 330)),
             ("near-miss:foreign-code-no-skip".into(), tier.pick(11, 130)),
             ("skip:custom-code".into(), tier.pick(30, 360)),
             ("skipper-ran".into(), tier.pick(70, 800)),
             ("kind:skipped".into(), tier.pick(200, 2400)),
         ];
         p.assumptions = vec![
+            "--cram-compat runs: Markdown documents with one skip code per document (front-matter defaults and/or the same inline value on every test case), no per-test timeouts, hard `exit` only with the skip code; documents with differing per-test configuration are rejected by scrut and not generated".into(),
             "included (prepend/append) test cases are not part of this workload: which skip code is 'theirs' is not decided by the statement".into(),
             "in Cram documents the only way out of the script is `exit 80`; other `exit`s abort the run (C20)".into(),
         ];
@@ -250,6 +286,7 @@ impl Monitor for C15 {
                 cli_prepend: vec![],
                 cli_append: vec![],
                 cli_timeout_s: None,
+            cram_compat: false,
             },
             summary: false,
         }
@@ -291,6 +328,21 @@ impl Monitor for C15 {
                     return Checked::inconclusive(format!("the skipping test case {} left no marker", d.seq[by].id));
                 }
                 let t = &spec.tests[by];
+                if d.script && d.format == Format::Markdown {
+                    buckets.push(
+                        if t.skip_code.is_some() {
+                            "cram-compat:skip-by-inline-code"
+                        } else if spec.skip_code.is_some() {
+                            "cram-compat:skip-by-document-code"
+                        } else {
+                            "cram-compat:skip-by-default-code"
+                        }
+                        .into(),
+                    );
+                }
+                if d.script && d.format == Format::Markdown && (t.skip_code.is_some() || spec.skip_code.is_some()) {
+                    buckets.push("cram-compat:skip-by-custom-code".into());
+                }
                 if t.skip_code.is_some() || spec.skip_code.is_some() {
                     buckets.push("skip:custom-code".into());
                 } else {
@@ -313,6 +365,13 @@ impl Monitor for C15 {
                     DocEnd::TimedOut { at, .. } => at,
                     _ => spec.tests.len(),
                 };
+                if d.script
+                    && d.format == Format::Markdown
+                    && (spec.skip_code.is_some() || spec.tests.iter().any(|t| t.skip_code.is_some()))
+                    && spec.tests.iter().any(|t| t.exit == DEFAULT_SKIP_CODE)
+                {
+                    buckets.push("cram-compat:near-miss:exits-80-under-custom-code".into());
+                }
                 if spec.tests.iter().take(reached).any(|t| t.exit != 0 && codes.contains(&t.exit)) {
                     nontrivial = true;
                     buckets.push("near-miss:foreign-code-no-skip".into());
